@@ -131,6 +131,7 @@ class Flattener:
         self.depth = depth
         self.also = also or set()          # additional (public) callee names that may be inlined
         self.inlined: List[str] = []
+        self.bodies: List[tuple] = []      # (callee qn, {parameter: bound local name}, statements put in place of the call)
 
     # ------------------------------------------------------------------ resolution
     def _target(self, caller: FuncInfo, call: ast.Call, stack: Tuple[str, ...]) -> Optional[Tuple[FuncInfo, Optional[ast.AST]]]:
@@ -225,8 +226,10 @@ class Flattener:
         # recursive flattening of what was pulled in (the callee is the resolution context)
         sub = Flattener(self.repo, self.f, self.depth, self.also)
         sub.inlined = self.inlined
+        sub.bodies = self.bodies
         stmts = sub._flatten_block(stmts, callee, stack + (callee.qn,), depth + 1, rename=mapping)
         self.inlined.append(callee.qn)
+        self.bodies.append((callee.qn, {orig: name for name, _v, orig in binds}, [x for x in stmts if x not in pre]))
         result = ast.copy_location(ast.Name(id=ret, ctx=ast.Load()), call) if has_value else ast.copy_location(ast.Constant(value=None), call)
         return stmts, result
 
@@ -380,6 +383,7 @@ class Flattener:
         flat.qn = self.f.qn            # findings are reported against the public function
         flat.flat_of = self.f
         flat.inlined = list(dict.fromkeys(self.inlined))
+        flat.inlined_bodies = self.bodies
         return flat
 
 
